@@ -137,17 +137,27 @@ Fixpoint member_locals (ms : list member) : list bind :=
   | _ :: rest => member_locals rest
   end.
 
+Definition field_fname (f : field) : field_name :=
+  match f with FValue n _ _ _ => n | FFunc n _ _ _ _ => n end.
+Definition field_plus (f : field) : bool :=
+  match f with FValue _ p _ _ => p | FFunc _ _ _ _ _ => false end.
+Definition field_vis (f : field) : visibility :=
+  match f with FValue _ _ v _ => v | FFunc _ _ _ v _ => v end.
+
 Section WithAnalyzeExpr.
   (* the recursive knot: [ae] is [analyze_expr] itself *)
   Variable ae : expr -> env -> bool -> res ir.
 
+  (* one parameter: its default value, if any, sees all the parameters *)
+  Definition analyze_param_with (inner : env) (p : param) : res (str * option ir) :=
+    match p with
+    | MkParam n d => do d' <- optM (fun x => ae x inner false) d; Ok (id_value n, d')
+    end.
+
   (* fn analyze_function *)
   Definition analyze_function_with (params : list param) (body : expr) (e : env) : res ir :=
     do inner <- declare_names RepeatedParamName (map param_ident params) [] e;
-    do ps <- mapM (fun p =>
-               match p with
-               | MkParam n d => do d' <- optM (fun x => ae x inner false) d; Ok (id_value n, d')
-               end) params;
+    do ps <- mapM (analyze_param_with inner) params;
     do b <- ae body inner true;
     Ok (IFunc ps b).
 
@@ -213,6 +223,23 @@ Section WithAnalyzeExpr.
     | None => Ok (IFix name, sp, (name, length fields) :: fix_fields)
     end.
 
+  Definition analyze_field_value_with (inner : env) (f : field) : res ir :=
+    match f with
+    | FValue _ _ _ v => ae v inner false
+    | FFunc _ ps _ _ body => analyze_function_with ps body inner
+    end.
+
+  (* the name of a field, analysed AFTER its value; a computed name is analysed
+     in the environment of the object expression itself ([outer]) *)
+  Definition analyze_field_name_with (outer : env) (fields : list ir_field)
+             (fix_fields : list (str * nat)) (n : field_name)
+    : res (ir_fname * span * list (str * nat)) :=
+    match n with
+    | FnIdent i => fix_field_name fields fix_fields (id_value i) (id_span i)
+    | FnString s sp => fix_field_name fields fix_fields s sp
+    | FnExpr e sp => do x <- ae e outer false; Ok (IDyn x, sp, fix_fields)
+    end.
+
   (* the member loop of ObjInside::Members: [outer] is the environment of the
      object expression itself, [inner] the one with the object locals and
      is_obj set *)
@@ -230,20 +257,11 @@ Section WithAnalyzeExpr.
           do a' <- analyze_assert_with a inner;
           go rest locals (asserts ++ [a']) fields fix_fields
       | MField f :: rest =>
-          do value <- match f with
-                      | FValue _ _ _ v => ae v inner false
-                      | FFunc _ ps _ _ body => analyze_function_with ps body inner
-                      end;
-          let fname := match f with FValue n _ _ _ => n | FFunc n _ _ _ _ => n end in
-          let plus := match f with FValue _ p _ _ => p | FFunc _ _ _ _ _ => false end in
-          let vis := match f with FValue _ _ v _ => v | FFunc _ _ _ v _ => v end in
-          do nm <- match fname with
-                   | FnIdent i => fix_field_name fields fix_fields (id_value i) (id_span i)
-                   | FnString s sp => fix_field_name fields fix_fields s sp
-                   | FnExpr e sp => do n <- ae e outer false; Ok (IDyn n, sp, fix_fields)
-                   end;
-          let '(name, name_span, fix_fields') := nm in
-          go rest locals asserts (fields ++ [MkIrField name name_span plus vis value]) fix_fields'
+          do value <- analyze_field_value_with inner f;
+          do nm <- analyze_field_name_with outer fields fix_fields (field_fname f);
+          go rest locals asserts
+             (fields ++ [MkIrField (fst (fst nm)) (snd (fst nm)) (field_plus f) (field_vis f) value])
+             (snd nm)
       end.
 
   (* fn analyze_objinside *)
@@ -441,3 +459,151 @@ Definition error_name (x : analyze_error) : option str :=
   | RepeatedParamName _ _ n => Some n
   | _ => None
   end.
+
+(* ======================================================================
+   Specification: the static rules of the Jsonnet specification, written on
+   the surface syntax, independently of the traversal above.  [StaticOK vs io e]:
+   with the variables [vs] in scope and [io] telling whether [e] stands inside
+   an object, [e] has no scoping fault anywhere — every sub-expression is
+   inspected, whether or not evaluation would ever reach it.
+
+     - a variable must be in scope;
+     - self, $ and super need an enclosing object;
+     - the names bound by one local / one parameter list / the locals of one
+       object are pairwise distinct, and so are the statically known field
+       names of one object;
+     - binders of one group see each other (locals, object locals, parameters
+       in default arguments);
+     - a computed field name is outside the object it names a field of: it
+       sees neither the object's locals nor its self;
+     - comprehension clauses scope left to right; the key of an object
+       comprehension sees the clause variables only;
+     - positional arguments precede named ones;
+     - an import path is a plain string literal.
+   ====================================================================== *)
+Definition param_name (p : param) : str := id_value (param_ident p).
+Definition bind_name (b : bind) : str := id_value (bind_ident b).
+
+(* names of the statically named fields of a member list, in order *)
+Fixpoint static_field_names (ms : list member) : list str :=
+  match ms with
+  | [] => []
+  | MField (FValue (FnIdent i) _ _ _) :: rest
+  | MField (FFunc (FnIdent i) _ _ _ _) :: rest => id_value i :: static_field_names rest
+  | MField (FValue (FnString s _) _ _ _) :: rest
+  | MField (FFunc (FnString s _) _ _ _ _) :: rest => s :: static_field_names rest
+  | _ :: rest => static_field_names rest
+  end.
+
+Definition is_positional (a : arg) : Prop := match a with APositional _ => True | ANamed _ _ => False end.
+Definition is_named (a : arg) : Prop := match a with APositional _ => False | ANamed _ _ => True end.
+Definition positional_first (args : list arg) : Prop :=
+  exists ps ns, args = ps ++ ns /\ Forall is_positional ps /\ Forall is_named ns.
+
+Inductive StaticOK : list str -> bool -> expr -> Prop :=
+| SO_Null vs io sp : StaticOK vs io (ENull sp)
+| SO_Bool vs io sp b : StaticOK vs io (EBool sp b)
+| SO_Self vs sp : StaticOK vs true (ESelf sp)
+| SO_Dollar vs sp : StaticOK vs true (EDollar sp)
+| SO_String vs io sp s : StaticOK vs io (EString sp s)
+| SO_TextBlock vs io sp s : StaticOK vs io (ETextBlock sp s)
+| SO_Number vs io sp n : StaticOK vs io (ENumber sp n)
+| SO_Paren vs io sp e : StaticOK vs io e -> StaticOK vs io (EParen sp e)
+| SO_Object vs io sp o : ObjOK vs io o -> StaticOK vs io (EObject sp o)
+| SO_Array vs io sp items : Forall (StaticOK vs io) items -> StaticOK vs io (EArray sp items)
+| SO_ArrayComp vs io sp e cs vs' :
+    SpecsOK vs io cs vs' -> StaticOK vs' io e -> StaticOK vs io (EArrayComp sp e cs)
+| SO_Field vs io sp e n : StaticOK vs io e -> StaticOK vs io (EField sp e n)
+| SO_Index vs io sp e i : StaticOK vs io e -> StaticOK vs io i -> StaticOK vs io (EIndex sp e i)
+| SO_Slice vs io sp e a b c :
+    StaticOK vs io e ->
+    (forall x, a = Some x -> StaticOK vs io x) ->
+    (forall x, b = Some x -> StaticOK vs io x) ->
+    (forall x, c = Some x -> StaticOK vs io x) ->
+    StaticOK vs io (ESlice sp e a b c)
+| SO_SuperField vs sp ssp n : StaticOK vs true (ESuperField sp ssp n)
+| SO_SuperIndex vs sp ssp i : StaticOK vs true i -> StaticOK vs true (ESuperIndex sp ssp i)
+| SO_Call vs io sp f args ts :
+    StaticOK vs io f -> positional_first args -> Forall (ArgOK vs io) args ->
+    StaticOK vs io (ECall sp f args ts)
+| SO_Ident vs io sp n : In (id_value n) vs -> StaticOK vs io (EIdent sp n)
+| SO_Local vs io sp binds body :
+    NoDup (map bind_name binds) ->
+    Forall (BindOK (map bind_name binds ++ vs) io) binds ->
+    StaticOK (map bind_name binds ++ vs) io body ->
+    StaticOK vs io (ELocal sp binds body)
+| SO_If vs io sp c t f :
+    StaticOK vs io c -> StaticOK vs io t -> (forall x, f = Some x -> StaticOK vs io x) ->
+    StaticOK vs io (EIf sp c t f)
+| SO_Binary vs io sp l op r : StaticOK vs io l -> StaticOK vs io r -> StaticOK vs io (EBinary sp l op r)
+| SO_Unary vs io sp op e : StaticOK vs io e -> StaticOK vs io (EUnary sp op e)
+| SO_ObjExt vs io sp e o osp : StaticOK vs io e -> ObjOK vs io o -> StaticOK vs io (EObjExt sp e o osp)
+| SO_Func vs io sp ps body : FunctionOK vs io ps body -> StaticOK vs io (EFunc sp ps body)
+| SO_Assert vs io sp a body : AssertOK vs io a -> StaticOK vs io body -> StaticOK vs io (EAssert sp a body)
+| SO_Import vs io sp psp s : StaticOK vs io (EImport sp (EString psp s))
+| SO_ImportStr vs io sp psp s : StaticOK vs io (EImportStr sp (EString psp s))
+| SO_ImportBin vs io sp psp s : StaticOK vs io (EImportBin sp (EString psp s))
+| SO_Error vs io sp e : StaticOK vs io e -> StaticOK vs io (EError sp e)
+| SO_InSuper vs sp e ssp : StaticOK vs true e -> StaticOK vs true (EInSuper sp e ssp)
+
+with ParamOK : list str -> bool -> param -> Prop :=
+| PO_NoDefault vs io n : ParamOK vs io (MkParam n None)
+| PO_Default vs io n d : StaticOK vs io d -> ParamOK vs io (MkParam n (Some d))
+
+(* parameters are distinct; defaults and body see all of them *)
+with FunctionOK : list str -> bool -> list param -> expr -> Prop :=
+| FO_Intro vs io ps body :
+    NoDup (map param_name ps) ->
+    Forall (ParamOK (map param_name ps ++ vs) io) ps ->
+    StaticOK (map param_name ps ++ vs) io body ->
+    FunctionOK vs io ps body
+
+with BindOK : list str -> bool -> bind -> Prop :=
+| BO_Value vs io n v : StaticOK vs io v -> BindOK vs io (MkBind n None v)
+| BO_Func vs io n ps psp v : FunctionOK vs io ps v -> BindOK vs io (MkBind n (Some (ps, psp)) v)
+
+with AssertOK : list str -> bool -> assert_ -> Prop :=
+| AO_Intro vs io sp c m :
+    StaticOK vs io c -> (forall x, m = Some x -> StaticOK vs io x) -> AssertOK vs io (MkAssert sp c m)
+
+(* [SpecsOK vs io clauses vs']: the clauses are fine in scope [vs], and leave [vs'] *)
+with SpecsOK : list str -> bool -> list comp_spec -> list str -> Prop :=
+| SP_Nil vs io : SpecsOK vs io [] vs
+| SP_For vs io v e rest out :
+    StaticOK vs io e -> SpecsOK (id_value v :: vs) io rest out -> SpecsOK vs io (CFor v e :: rest) out
+| SP_If vs io e rest out :
+    StaticOK vs io e -> SpecsOK vs io rest out -> SpecsOK vs io (CIf e :: rest) out
+
+with ArgOK : list str -> bool -> arg -> Prop :=
+| AR_Positional vs io e : StaticOK vs io e -> ArgOK vs io (APositional e)
+| AR_Named vs io n e : StaticOK vs io e -> ArgOK vs io (ANamed n e)
+
+with ObjOK : list str -> bool -> obj_inside -> Prop :=
+| OO_Members vs io ms :
+    NoDup (map bind_name (member_locals ms)) ->
+    NoDup (static_field_names ms) ->
+    Forall (MemberOK vs io (map bind_name (member_locals ms) ++ vs)) ms ->
+    ObjOK vs io (OMembers ms)
+| OO_Comp vs io l1 name plus body l2 cs vs' :
+    SpecsOK vs io cs vs' ->
+    NoDup (map bind_name (l1 ++ l2)) ->
+    Forall (BindOK (map bind_name (l1 ++ l2) ++ vs') true) (l1 ++ l2) ->
+    StaticOK vs' io name ->
+    StaticOK (map bind_name (l1 ++ l2) ++ vs') true body ->
+    ObjOK vs io (OComp l1 name plus body l2 cs)
+
+(* [MemberOK outer io inner m]: [outer]/[io] is the scope of the object
+   expression, [inner] the scope inside the object (locals added, self bound) *)
+with MemberOK : list str -> bool -> list str -> member -> Prop :=
+| MO_Local vs io inner b : BindOK inner true b -> MemberOK vs io inner (MLocal b)
+| MO_Assert vs io inner a : AssertOK inner true a -> MemberOK vs io inner (MAssert a)
+| MO_FieldValue vs io inner n plus vis v :
+    FieldNameOK vs io n -> StaticOK inner true v -> MemberOK vs io inner (MField (FValue n plus vis v))
+| MO_FieldFunc vs io inner n ps psp vis v :
+    FieldNameOK vs io n -> FunctionOK inner true ps v ->
+    MemberOK vs io inner (MField (FFunc n ps psp vis v))
+
+with FieldNameOK : list str -> bool -> field_name -> Prop :=
+| FN_Ident vs io i : FieldNameOK vs io (FnIdent i)
+| FN_String vs io s sp : FieldNameOK vs io (FnString s sp)
+| FN_Expr vs io e sp : StaticOK vs io e -> FieldNameOK vs io (FnExpr e sp).
